@@ -168,7 +168,7 @@ func doRecv[C ~chan T | ~<-chan T, T any](ch C) (T, bool) {
 	if w := firstOther(c.selSend, S.cur); w != nil {
 		// rendezvous with a thread blocked in a select that offers a send on this channel
 		w.t.forced = &forcedCase{idx: w.idx}
-		hbAcquire(any(ch))
+		hbHandOff(w.t, S.cur)
 		return w.val.(T), true
 	}
 	hbAcquire(any(ch))
@@ -207,6 +207,7 @@ func Recv[C ~chan T | ~<-chan T, T any](ch C) T {
 type Case interface {
 	ready() bool
 	fire()
+	sendVal() (any, bool) // the value a send case offers
 	register(idx int)   // unbuffered channels: announce the offer while blocked
 	unregister()
 	force(f *forcedCase) // the counterpart completed the rendezvous for this case
@@ -225,6 +226,7 @@ func RecvCase[C ~chan T | ~<-chan T, T any](c C) *RecvC[C, T] { return &RecvC[C,
 func (r *RecvC[C, T]) ready() bool                            { return recvReady(r.ch) }
 func (r *RecvC[C, T]) fire()                                  { r.V, r.OK = doRecv(r.ch) }
 func (r *RecvC[C, T]) name() string                           { return "recv:" + chanName(any(r.ch)) }
+func (r *RecvC[C, T]) sendVal() (any, bool) { return nil, false }
 func (r *RecvC[C, T]) register(idx int) {
 	if cap(r.ch) == 0 {
 		c := st(any(r.ch))
@@ -270,7 +272,9 @@ func (s *SendC[T]) fire() {
 	// unbuffered: hand the value to the first blocked receiver; it completes with that case
 	w := firstOther(st(any(s.ch)).selRecv, S.cur)
 	w.t.forced = &forcedCase{idx: w.idx, val: any(s.v)}
+	hbHandOff(S.cur, w.t)
 }
+func (s *SendC[T]) sendVal() (any, bool) { return any(s.v), true }
 func (s *SendC[T]) register(idx int) {
 	if cap(s.ch) == 0 {
 		c := st(any(s.ch))
@@ -322,7 +326,11 @@ func Select(hasDefault bool, cases ...Case) int {
 	} else {
 		for i, c := range cases {
 			c.register(i)
+			if v, ok := c.sendVal(); ok && cur.Pending == nil {
+				cur.Pending = v // visible to manual-mode harnesses while parked in front of the send
+			}
 		}
+		defer func() { cur.Pending = nil }()
 		Block("select", names, func() bool {
 			if cur.forced != nil {
 				return true
